@@ -67,6 +67,7 @@ void tokens_reset(AsmContext *asm_context)
   asm_context->tokens.unget_ptr = 0;
   asm_context->tokens.unget_stack_ptr = 0;
   asm_context->tokens.unget_stack[0] = 0;
+  asm_context->tokens.expand_count = 0;
 }
 
 static int tokens_hex_string_to_int(char *s, uint64_t *num, bool prefixed)
@@ -230,6 +231,9 @@ int tokens_get_char(AsmContext *asm_context)
       }
     } while (ch == '\r');
 
+    // A character of the source has been used: macro expansion is moving on.
+    if (ch != EOF) { asm_context->tokens.expand_count = 0; }
+
     if (asm_context->list != NULL && asm_context->write_list_file == 1)
     {
       if (ch != EOF) { putc(ch, asm_context->list); }
@@ -251,7 +255,14 @@ int tokens_unget_char(AsmContext *asm_context, int ch)
   return 0;
 }
 
-int tokens_get(AsmContext *asm_context, char *token, int len)
+// Reads one token.  When the token names a macro, the macro's text is
+// pushed on the macro stack, *macro_entered is set and the caller reads
+// the next token (the first one of the macro's text).
+static int tokens_get_one(
+  AsmContext *asm_context,
+  char *token,
+  int len,
+  bool *macro_entered)
 {
   int token_type = TOKEN_EOF;
   int ch;
@@ -745,10 +756,9 @@ printf("debug> '%s' is a macro.  param_count=%d\n", token, param_count);
 //  asm_context->tokens.unget_ptr);
 #endif
 
-      token_type = tokens_get(asm_context, token, len);
-#ifdef DEBUG
-//printf("debug> expanding.. '%s'\n", token);
-#endif
+      // The token is the next one, read from the macro's text.
+      *macro_entered = true;
+      return TOKEN_EOF;
     }
       else
     if (token[0] == '0' && token[1] == 'x')
@@ -813,6 +823,32 @@ printf("debug> '%s' is a macro.  param_count=%d\n", token, param_count);
   //printf("next token: %s\n", token);
 
   return token_type;
+}
+
+int tokens_get(AsmContext *asm_context, char *token, int len)
+{
+  // This used to be a recursion of tokens_get() at every macro name.  The
+  // depth of that recursion is not limited by MAX_NESTED_MACROS (a text that
+  // has been read to its end is popped before the next macro is entered), so
+  // "A A A A ..." with an empty A, or "A equ A", ran out of stack.
+  while (true)
+  {
+    bool macro_entered = false;
+    int token_type = tokens_get_one(asm_context, token, len, &macro_entered);
+
+    if (macro_entered == false) { return token_type; }
+
+    // Macros that expand to each other without end ("A equ A", or each
+    // level using the one below twice) never take a character from the
+    // source file again.
+    if (++asm_context->tokens.expand_count > MAX_MACRO_EXPANSIONS)
+    {
+      print_error(asm_context, "Macro expansion does not end");
+      asm_context->error_count++;
+      token[0] = 0;
+      return TOKEN_EOF;
+    }
+  }
 }
 
 void tokens_push(AsmContext *asm_context, const char *token, int token_type)
